@@ -194,6 +194,56 @@ def jsSingleQuotedBody : Nat → List Nat → Option (List Nat)
 def jsSingleQuotedValue (body : Str) : Option Str :=
   (jsSingleQuotedBody (body.length + 1) body).map utf16Decode
 
+/-! ### the run of the artifact generator over all operations of a project -/
+
+/-- what `generate_operation_text` is called with for one entrypoint / refetch query -/
+structure OpIn where
+  compact : Str
+  queryName : Str
+  rootEntity : Str
+deriving Repr, Inhabited
+
+/-- All calls of `generate_operation_text` of one compilation, in order, threading
+`persisted_documents`: the operation ids written into the artifacts and the final documents. -/
+def runOps (H : Str → Str) (opts : PersistOpts) : List OpIn → Docs → List Str × Docs
+  | [], docs => ([], docs)
+  | op :: rest, docs =>
+    let r := generateOperationText H (some opts) docs op.compact op.queryName op.rootEntity 1
+    let (ids, final) := runOps H opts rest r.2.2
+    (r.2.1.getD [] :: ids, final)
+
+/-! ### texts without quotes, backslashes and line terminators (for the C26 theorem) -/
+
+def isPlainChar (c : Nat) : Bool := c != 34 && c != 92 && c != 39 && c != 10 && c != 13
+
+def isPlain (s : Str) : Bool := s.all isPlainChar
+
+mutual
+def Value.plain : Value → Bool
+  | .var n => isPlain n
+  | .int _ => true
+  | .bool _ => true
+  | .str s => isPlain s
+  | .float t => isPlain t
+  | .null => true
+  | .enum e => isPlain e
+  | .list _ => true
+  | .obj fields => Value.plainFields fields
+def Value.plainFields : List (Str × Value) → Bool
+  | [] => true
+  | (k, v) :: rest => isPlain k && v.plain && Value.plainFields rest
+end
+
+mutual
+def Tree.plain : Tree → Bool
+  | .field name args none => isPlain name && Value.plainFields args
+  | .field name args (some kids) => isPlain name && Value.plainFields args && Tree.plainList kids
+  | .frag ty kids => isPlain ty && Tree.plainList kids
+def Tree.plainList : List Tree → Bool
+  | [] => true
+  | t :: rest => t.plain && Tree.plainList rest
+end
+
 /-! ### files -/
 
 /-- `// {header}\n` in front of every file when `generated_file_header` is set -/
